@@ -60,9 +60,9 @@ def _inv(ctx, M):
 
 
 def _cases(tier):
-    c = [(1, 1, False), (1, 2, False), (2, 1, False), (2, 2, True)]
+    c = [(1, 1, False), (1, 2, False), (2, 1, False), (2, 2, True), (2, 2, False)]
     if tier == "thorough":
-        c += [(2, 2, False), (1, 3, True), (3, 1, True), (2, 3, True), (3, 2, True)]
+        c += [(1, 3, True), (3, 1, True), (2, 3, True), (3, 2, True), (3, 3, True)]
     return c
 
 
@@ -196,11 +196,11 @@ PLAN = {
     "thorough": {"harnesses": ["C17.identities", "C17.scalar-bounds", "C17.history"],
                  "opts": {"query_timeout_ms": 60000}},
 }
-BOUNDS = {"quick": {"shapes (n, m)": "(1,1), (1,2), (2,1) with full symmetric SPD covariances; all real K incl. zero / rank deficient",
+BOUNDS = {"quick": {"shapes (n, m)": "(1,1), (1,2), (2,1), (2,2) with full symmetric SPD covariances (and (2,2) with diagonal ones); all real K incl. zero / rank deficient",
                     "scalar bounds": "n = 1, m <= 2"},
-          "thorough": {"shapes (n, m)": "adds (2,2), (1,3), (3,1) with diagonal covariances",
+          "thorough": {"shapes (n, m)": "adds (1,3), (3,1), (2,3), (3,2), (3,3) with diagonal covariances",
                        "scalar bounds": "n = 1, m <= 3"}}
-OUTSIDE = ["state or measurement dimension > 2 (3 with diagonal covariances)",
+OUTSIDE = ["state or measurement dimension > 2 (3 with diagonal covariances; full 2x2 with diagonal 3x3 did not return from the solver within 280 s and is not claimed)",
            "eigenvalue / limit statements for n >= 2", "LAPACK's numerical inverse (replaced by the exact adjugate inverse)",
            "conditioning / floating point"]
 STUBS = ["scipy.linalg.inv -> exact adjugate inverse on rational-function scalars (LinAlgError when the determinant can be zero)"]
